@@ -88,14 +88,22 @@ def rule_blockwise(repo: Repo, rep: Report) -> int:
     n = 0
     ok_a = any(b.startswith("assert L % block_size == 0") for b in body) or any(isinstance(s, ast.If) and unparse(s.test) == "L % block_size != 0" and any(isinstance(x, ast.Raise) for x in s.body) for s in fi.body)
     rep.expect(ok_a, "BLOCKWISE", fi, "divisibility: assert L % block_size == 0", "a length that is not a multiple of the block size stops with an error", "apply_blockwise no longer rejects non-divisible lengths")
-    ok_s = "*leading_dims, L = x.shape" in body and "new_shape = (*leading_dims, L // block_size, block_size)" in body and ("x_reshaped = x.view(*new_shape)" in body or "x_reshaped = x.reshape(*new_shape)" in body or "x_reshaped = x.reshape(new_shape)" in body)
-    rep.expect(ok_s, "BLOCKWISE", fi, "x viewed as (*lead, L // b, b)", "consecutive runs of b symbols form the blocks; leading dimensions untouched", "the block view is not (*lead, L // b, b)")
-    ok_c = "result = fn(x_reshaped)" in body
-    rep.expect(ok_c, "BLOCKWISE", fi, "result = fn(x_reshaped)", "the block function is applied once to the blocked view", "fn is not applied exactly to the blocked view")
+    inl = Inliner(fi)
+    views = [a_ for a_ in ast.walk(fi.node) if isinstance(a_, ast.Assign) and isinstance(a_.targets[0], ast.Name) and isinstance(a_.value, ast.Call) and isinstance(a_.value.func, ast.Attribute) and a_.value.func.attr in ("view", "reshape") and unparse(a_.value.func.value) == "x"]
+    vname = views[0].targets[0].id if len(views) == 1 else None
+    vtxt = unparse(inl.inline(views[0].value)).replace("reshape", "view") if len(views) == 1 else ""
+    good_view = "*leading_dims, L = x.shape" in body and vtxt in ("x.view(*leading_dims, L // block_size, block_size)", "x.view(*(*leading_dims, L // block_size, block_size))", "x.view((*leading_dims, L // block_size, block_size))")
+    wrong_view = vtxt in ("x.view(*leading_dims, block_size, L // block_size)", "x.view(*(*leading_dims, block_size, L // block_size))") or ("transpose" in vtxt or "permute" in vtxt)
+    rep.shape(good_view, wrong_view, "BLOCKWISE", fi, f"x viewed as (*lead, L // b, b): {vtxt}", "consecutive runs of b symbols form the blocks; leading dimensions untouched", "the block view is not (*lead, L // b, b): blocks are not runs of b consecutive symbols")
+    calls = [c_ for c_ in ast.walk(fi.node) if isinstance(c_, ast.Call) and isinstance(c_.func, ast.Name) and c_.func.id == "fn"]
+    ok_c = len(calls) == 1 and len(calls[0].args) == 1 and isinstance(calls[0].args[0], ast.Name) and calls[0].args[0].id == vname and not calls[0].keywords
+    rep.shape(ok_c, len(calls) == 1 and len(calls[0].args) == 1 and unparse(calls[0].args[0]) == "x", "BLOCKWISE", fi, f"block function applied: {unparse(calls[0]) if calls else '(no call)'}", "the block function is applied once to the blocked view", "fn is not applied exactly to the blocked view")
     rets = [unparse(r.value) for r in returns_of(fi.node)]
-    ok_r = "result.view(*leading_dims, -1)" in rets or "result.reshape(*leading_dims, -1)" in rets
-    tup = any(unparse(s).startswith("processed_results.append(res_part.view(*leading_dims, -1))") or unparse(s).startswith("processed_results.append(res_part.reshape(*leading_dims, -1))") for s in stmts_of(fi.body))
-    rep.expect(ok_r and tup, "BLOCKWISE", fi, f"flatten back: {rets}", "blocks are concatenated again along the last axis, leading dimensions restored (also for tuple results)", "the result is not flattened back to (*lead, -1)")
+    flat = ("result.view(*leading_dims, -1)", "result.reshape(*leading_dims, -1)")
+    ok_r = any(r_ in flat for r_ in rets)
+    tup_loop = any(unparse(s).startswith("processed_results.append(res_part.view(*leading_dims, -1))") or unparse(s).startswith("processed_results.append(res_part.reshape(*leading_dims, -1))") for s in stmts_of(fi.body))
+    tup_gen = any(match(r.value, "tuple((_P.view(*leading_dims, -1) for _P in result))") is not None or match(r.value, "tuple((_P.reshape(*leading_dims, -1) for _P in result))") is not None or match(r.value, "tuple([_P.view(*leading_dims, -1) for _P in result])") is not None for r in returns_of(fi.node))
+    rep.expect(ok_r and (tup_loop or tup_gen), "BLOCKWISE", fi, f"flatten back: {rets}", "blocks are concatenated again along the last axis, leading dimensions restored (also for tuple results)", "the result is not flattened back to (*lead, -1)")
     n += 4
     # inverse_encode overrides keep the block structure
     ham = repo.func(f"{ENC}/hamming_code.py", "HammingCodeEncoder.inverse_encode")
